@@ -118,6 +118,127 @@ theorem backslash_is_slash (cur rel : List Char) :
     by_cases h : c = '\\' <;> simp [h]
   simp only [navComps, idem]
 
+/-! ### what the navigated path means (the statement: relative, confined) - and where that fails (finding F69) -/
+
+/-- what a sequence of path components *means*, read from the directory `st` (innermost name first): an empty component and
+    `.` stay, `..` goes up (`none`: above the directory the walk started in), a name goes down -/
+def walkPath : List (List Char) → List (List Char) → Option (List (List Char))
+  | [], st => some st
+  | c :: cs, st =>
+    if c.isEmpty || c == ['.'] then walkPath cs st
+    else if c == ['.', '.'] then
+      match st with
+      | [] => none
+      | _ :: t => walkPath cs t
+    else walkPath cs (c :: st)
+
+def cleanComp (c : List Char) : Bool := !c.isEmpty && c != ['.']
+
+theorem walkPath_cons (c : List Char) (cs st : List (List Char)) :
+    walkPath (c :: cs) st =
+      if c.isEmpty || c == ['.'] then walkPath cs st
+      else if c == ['.', '.'] then (match st with | [] => none | _ :: t => walkPath cs t)
+      else walkPath cs (c :: st) := by
+  rw [walkPath.eq_def]
+
+theorem clean_iff (c : List Char) : cleanComp c = true ↔ (c.isEmpty || c == ['.']) = false := by
+  unfold cleanComp
+  cases c.isEmpty <;> cases h : (c == ['.']) <;> simp [bne, h]
+
+theorem walkPath_filter (cs st : List (List Char)) : walkPath (cs.filter cleanComp) st = walkPath cs st := by
+  induction cs generalizing st with
+  | nil => rfl
+  | cons c cs ih =>
+    by_cases hc : cleanComp c = true
+    · rw [List.filter_cons_of_pos hc]
+      have h' := (clean_iff c).1 hc
+      rw [walkPath_cons, walkPath_cons]
+      simp only [h', Bool.false_eq_true, if_false]
+      split
+      · cases st <;> simp [ih]
+      · exact ih _
+    · rw [List.filter_cons_of_neg hc]
+      have h' : (c.isEmpty || c == ['.']) = true := by
+        cases h : (c.isEmpty || c == ['.'])
+        · exact absurd ((clean_iff c).2 h) hc
+        · rfl
+      rw [walkPath_cons c cs]
+      simp only [h', if_true]
+      exact ih st
+
+theorem walkPath_append (a b st : List (List Char)) :
+    walkPath (a ++ b) st = (walkPath a st).bind (walkPath b) := by
+  induction a generalizing st with
+  | nil => rfl
+  | cons c a ih =>
+    simp only [List.cons_append]
+    rw [walkPath_cons, walkPath_cons c a]
+    split
+    · exact ih st
+    · split
+      · cases st with
+        | nil => rfl
+        | cons x t => exact ih t
+      · exact ih _
+
+/-- on components none of which is empty or `.`, the collapsing loop computes the meaning of the path -/
+theorem collapse_is_walk (comps acc : List (List Char)) (hc : ∀ c ∈ comps, cleanComp c = true) :
+    collapseDots comps acc = match walkPath comps acc with
+      | some st => .ok st.reverse
+      | none => .error .outOfProject := by
+  induction comps generalizing acc with
+  | nil => rfl
+  | cons c rest ih =>
+    have h' := (clean_iff c).1 (hc c List.mem_cons_self)
+    have ihr := fun acc => ih acc (fun x hx => hc x (List.mem_cons_of_mem _ hx))
+    rw [collapseDots.eq_def, walkPath_cons]
+    simp only [h', Bool.false_eq_true, if_false]
+    have dd : "..".toList = ['.', '.'] := rfl
+    rw [dd]
+    split
+    · cases acc with
+      | nil => rfl
+      | cons x t => exact ihr t
+    · exact ihr _
+
+/-- **the navigated name is what the path `directory of the current file / relative name` means** - for a current file
+    whose own name is written without empty and `.` components (`sub/main.asm`, not `./main.asm`; every name the assembler
+    itself produces is of that form): the components of the result are the directory stack of the walk, and a walk that
+    leaves the starting directory is exactly the error "cannot navigate out of project directory".
+    PARTIAL: the hypothesis excludes root names such as `./main.asm` - see the example below (finding F69). -/
+theorem navigate_means_the_path_partial (cur rel : List Char)
+    (hcur : ∀ c ∈ (splitOnChar '/' (fixSlashes cur)).dropLast, cleanComp c = true)
+    (hrel : (fixSlashes rel).head? ≠ some '/')
+    (hne : ((splitOnChar '/' (fixSlashes rel)).filter cleanComp).isEmpty = false) :
+    navComps cur rel = match walkPath ((splitOnChar '/' (fixSlashes cur)).dropLast ++ splitOnChar '/' (fixSlashes rel)) [] with
+      | some st => .ok st.reverse
+      | none => .error .outOfProject := by
+  unfold navComps
+  simp only
+  have hb : ((fixSlashes rel).head? == some '/') = false := by
+    rw [beq_eq_false_iff_ne]; exact hrel
+  have hf : (splitOnChar '/' (fixSlashes rel)).filter (fun s => !s.isEmpty && s != ".".toList) =
+      (splitOnChar '/' (fixSlashes rel)).filter cleanComp := rfl
+  rw [hf, hne]
+  simp only [hb, Bool.false_eq_true, if_false]
+  rw [collapse_is_walk]
+  · have hw : walkPath ((splitOnChar '/' (fixSlashes rel)).filter cleanComp) = walkPath (splitOnChar '/' (fixSlashes rel)) :=
+      funext (walkPath_filter _)
+    rw [walkPath_append, walkPath_append, hw]
+  · intro c hc
+    rcases List.mem_append.1 hc with h | h
+    · exact hcur c h
+    · exact (List.mem_filter.1 h).2
+
+/-- the premises are met by an ordinary case, and the conclusion is not vacuous -/
+example : (navComps "src/a/main.asm".toList "../b/./x.asm".toList).toOption = some ["src".toList, "b".toList, "x.asm".toList] := by
+  decide
+
+/-- **F69: the excluded point.**  With the root written `./main.asm`, the path `./../x.asm` leaves the working directory
+    (`walkPath` = none), yet navigation succeeds and names `x.asm` inside it: the `.` was popped in place of a directory -/
+example : walkPath ((splitOnChar '/' "./main.asm".toList).dropLast ++ splitOnChar '/' "../x.asm".toList) [] = none ∧
+    (navComps "./main.asm".toList "../x.asm".toList).toOption = some ["x.asm".toList] := by decide
+
 def navShow (r : Except NavErr (List Char)) : String :=
   match r with
   | .ok p => "ok " ++ String.ofList p
